@@ -315,6 +315,7 @@ deriving Repr, DecidableEq
 structure Tree where
   m : List Ent
   edges : List Edge
+  sources : List Name := []        -- `hardlinkSources`: names of the entries reached through a hardlink
 deriving Repr, DecidableEq
 
 /-- `(*TOCEntry).addChild`: the children map is keyed by base name. -/
@@ -345,7 +346,8 @@ def treeStep (t : Tree) (e : Ent) : Outcome Tree :=
       match getSource t1.m e with
       | ok org =>
         if org.type = .dir then err
-        else ok { t1 with edges := addEdge t1.edges ⟨pdir, base, org.name, org.type⟩ }
+        else ok { t1 with edges := addEdge t1.edges ⟨pdir, base, org.name, org.type⟩,
+                          sources := org.name :: t1.sources }
       | err => err
       | Outcome.panic => Outcome.panic
     else ok { t1 with edges := addEdge t1.edges ⟨pdir, base, e.name, e.type⟩ }
@@ -358,10 +360,16 @@ def treeLoop : List Ent → Tree → Outcome Tree
     | err => err
     | Outcome.panic => Outcome.panic
 
+/-- `len(org.children) > 0`: some child edge starts at `n`. -/
+def hasChild (es : List Edge) (n : Name) : Bool := es.any (fun e => e.parent = n)
+
 /-- `initFields`: first loop registers every non-chunk entry (last one wins), second loop
-links children. -/
+links children, then every hardlink source must be childless. -/
 def initTree (ents : List Ent) : Outcome Tree :=
-  treeLoop ents ⟨(ents.filter (fun e => e.type ≠ .chunk)).reverse, []⟩
+  match treeLoop ents ⟨(ents.filter (fun e => e.type ≠ .chunk)).reverse, [], []⟩ with
+  | ok t => if t.sources.any (fun s => hasChild t.edges s) then err else ok t
+  | err => err
+  | Outcome.panic => Outcome.panic
 
 /-! ## fs/reader `file.ReadAt` -/
 
